@@ -21,7 +21,20 @@ def gen_areas(rng, max_areas=8, multi_zone=True):
     cursor = rng.choice([0, 0, 0x100, 0xc0d00000, 0xc0d0ff00 if multi_zone else 0x1000,
                          rng.randrange(0, 0xfff0) << (16 if multi_zone and rng.random() < 0.5
                                                       else 0)])
+    # one image in six has its areas in two or three regions far from each other, on both
+    # sides of 2^31 (and of 2^24, 2^20): a boot area low in memory next to code at
+    # 0xC0D00000.  (Regions are more than a megabyte apart; a region spans less.)
+    jumps = {}
+    if multi_zone and n >= 2 and rng.random() < 1 / 6:
+        bases = sorted(rng.sample([0, 0x00100000, 0x01000000, 0x7ff00000, 0x80000000,
+                                   0x80100000, 0xc0d00000, 0xfff00000],
+                                  rng.choice([2, 2, 3])))
+        cursor = bases[0]
+        at = sorted(rng.sample(range(1, n), min(len(bases) - 1, n - 1)))
+        jumps = dict(zip(at, bases[1:]))
     for i in range(n):
+        if i in jumps:
+            cursor = jumps[i]
         gap = rng.choice([0, 0, 1, 16, 255, 4096, rng.randint(0, 70000 if multi_zone else 500)])
         start = cursor + gap
         ln = rng.choice([1, 2, 16, 255, 256, 1000, rng.randint(1, 3000)])
